@@ -21,6 +21,9 @@ Inductive step_kind := KPut | KDelete | KEvict | KRestart | KWriteBack.
 Record step_obs := {
   so_kind : step_kind;
   so_slots : N;             (* for a put: number of 10 s slots the upload spans *)
+  so_ticked : bool;         (* for a put: the write-back of the trees cache ran inside this Put (between its cache reads and writes) *)
+  so_tick_len : N;          (* ... number of entries of the trees cache at that moment *)
+  so_tick_saved : N;        (* ... number of distinct entries the write-back goroutine serialized *)
   so_err_with : bool;       (* the step returned an error / panicked on the storage with maintenance *)
   so_err_plain : bool;
   so_answers : list (option get_obs * option get_obs)   (* per query: (with, plain) *)
@@ -82,7 +85,11 @@ Fixpoint walk (wb_seen sig scaled reloaded : bool) (l : list step_obs) : list ve
   match l with
   | [] => []
   | s :: l' =>
-      let wb' := wb_seen || match so_kind s with KWriteBack => true | _ => false end in
+      (* a write-back after which some entry may be marked persisted without having been saved (D10): the write-back
+         task over all caches, or a tick that did not save every entry of the trees cache.  A tick that saved every
+         entry dropped nothing, so the known finding cannot explain what follows it *)
+      let wb' := wb_seen || match so_kind s with KWriteBack => true | _ => false end
+                         || (so_ticked s && N.ltb (so_tick_saved s) (so_tick_len s)) in
       let sig' := sig || (wb_seen && is_maint (so_kind s)) in
       let scaled' := scaled || match so_kind s with KPut => N.ltb 1 (so_slots s) | _ => false end in
       let reloaded' := reloaded || (scaled && is_maint (so_kind s)) in
